@@ -271,6 +271,7 @@ func runC09(c *Ctx) {
 	c.rule("A7", "after a context-carrying step has failed, no further mutating effect happens unless the failure was first found not to be a cancellation/timeout, or the context is consulted again", 1)
 	c.rule("A8", "a copy of n bytes: the count n reaches io.CopyN (which reports a short source as EOF), or the number of bytes transferred is compared with n before success is reported", 1)
 	c.rule("A9", "a bounded read: the raw source is read only through io.LimitReader(src, max), except on the side of the branch where max is negative (no bound requested)", 1)
+	c.rule("A10", "in the context-carrying functions of package filesystem no byte is moved by a direct Read/Write on a handle or by a bare io.Copy/io.ReadAll: transfers go through the safeio helpers or a contextual wrapper", 3)
 	c.rule("A6", "no context.Background()/TODO() inside a context-carrying function outside deferred clean-up", 60)
 
 	s := &c09State{c: c, eff: c.computeEffects(), gateFirst: map[*ssa.Function]bool{}}
@@ -332,6 +333,7 @@ func runC09(c *Ctx) {
 	s.freshContexts()
 	s.exactN()
 	s.boundedRead()
+	s.rawTransfers()
 }
 
 // entryViolation: first mutating effect or non-error return reachable from the
@@ -1105,4 +1107,68 @@ func (s *c09State) boundedRead() {
 		c.check(bad == "", "A9", fname(f)+"/at-most-max", c.pos(f.Pos()),
 			"the source is read through io.LimitReader(src, max) unless max < 0", bad+": more than max bytes can be returned")
 	}
+}
+
+// rawTransfers (A10): "when the context ends while it runs, it starts no new read from a source stream". The
+// safeio helpers test the context before every Read/Write; a direct Read on a handle, or a bare io.Copy, in a
+// function that was given a context does not.
+func (s *c09State) rawTransfers() {
+	c := s.c
+	wrapped := func(v ssa.Value) bool {
+		for _, l := range sources(v, deriveOpts{}) {
+			if cl, ok := l.(*ssa.Call); ok {
+				n := calleeFull(&cl.Call)
+				if strings.HasSuffix(n, "safeio.NewContextualReader") || strings.HasSuffix(n, "safeio.ContextualWriter") || strings.HasSuffix(n, "safeio.NewContextualReaderFrom") || strings.HasSuffix(n, "contextio.NewReader") || strings.HasSuffix(n, "contextio.NewWriter") {
+					continue
+				}
+			}
+			return false
+		}
+		return true
+	}
+	moving := map[string]bool{"Read": true, "Write": true, "ReadFrom": true, "WriteTo": true, "WriteString": true, "ReadAt": true, "WriteAt": true}
+	nOK := 0
+	for _, f := range s.all {
+		if !inPkg(fsPkgRel)(f) || ctxParamOf(outermost(f)) == nil {
+			continue
+		}
+		allInstrs(f, func(in ssa.Instruction) {
+			cl, ok := in.(*ssa.Call)
+			if !ok {
+				return
+			}
+			key := fname(outermost(f)) + "/transfer"
+			n := calleeFull(&cl.Call)
+			switch {
+			case cl.Call.IsInvoke() && moving[cl.Call.Method.Name()]:
+				t := cl.Call.Value.Type().String()
+				if !(strings.HasPrefix(t, "io.") || strings.HasSuffix(t, "filesystem.File") || strings.HasSuffix(t, "afero.File")) {
+					return
+				}
+				if wrapped(cl.Call.Value) {
+					nOK++
+					c.ok("A10", key+":"+cl.Call.Method.Name(), c.ipos(cl), "through a contextual wrapper")
+					return
+				}
+				c.violate("A10", key+":"+cl.Call.Method.Name(), c.ipos(cl), "direct "+cl.Call.Method.Name()+"() on a stream in a function that carries a context: the operation is started even though the context has ended")
+			case n == "io.Copy" || n == "io.CopyN" || n == "io.CopyBuffer" || n == "io.ReadAll" || n == "io.ReadFull" || n == "io/ioutil.ReadAll":
+				allWrapped := true
+				for _, a := range cl.Call.Args {
+					if _, isIface := a.Type().Underlying().(*types.Interface); isIface && !wrapped(a) && !isGlobalLoad(a, "Discard") {
+						allWrapped = false
+					}
+				}
+				if allWrapped {
+					nOK++
+					c.ok("A10", key+":"+short(n), c.ipos(cl), "operands are contextual wrappers")
+					return
+				}
+				c.violate("A10", key+":"+short(n), c.ipos(cl), short(n)+" on a raw stream in a function that carries a context: reads go on after the context has ended")
+			case strings.Contains(n, "/safeio.") && (strings.Contains(n, "Copy") || strings.Contains(n, "Read")) && !strings.Contains(n, "NewContextual") && !strings.Contains(n, "NewByteReader"):
+				nOK++
+				c.ok("A10", key+":"+short(n), c.ipos(cl), "safeio helper")
+			}
+		})
+	}
+	c.Extra["context_aware_transfers"] = nOK
 }
